@@ -15,7 +15,7 @@ from oracles.treecheck import flat_shape as shape
 from vlib.core import Leg, Result, exc_failure
 
 ID = 'C19'
-RULE = ('API cases: encoding e in {utf-8, latin-1, cp1252, cp1251, gbk, shift_jis, koi8-r, utf-16} x text = grammar script with characters drawn from what e can encode '
+RULE = ('API cases: encoding e in {utf-8, latin-1, cp1252, cp1251, gbk, shift_jis, koi8-r, utf-16} x text = grammar script (6/8), GO-only batches without any semicolon (1/8), any text of the shared source mix (1/8, API only), with characters drawn from what e can encode '
         '(construction) x form in {str, bytes+encoding=e, UTF-8 bytes without encoding, non-UTF-8 Latin-1 bytes without encoding, io.StringIO} x function in {parse, '
         'parsestream, split, format + drawn valid options}; results must equal those for the str form (statement texts, tree shapes, get_type). CLI cases: argv built from '
         'a drawn option set via a flag table written from --help, input as file or stdin bytes in e, output to stdout or -o; sqlparse.cli.main(argv) in-process; the '
@@ -55,11 +55,28 @@ def sprinkle(laid, enc, draw):
     return out
 
 
+GO_SEPARATORS = ['\nGO\n', ' go ', '\nGo 2\n', '\ngo\n\n', '\r\nGO\r\n', '\nGO -- batch\n']
+
+
 @st.composite
-def texts(draw, enc):
-    laid = draw(G.script(1, 3, comments=10))
-    laid = sprinkle(laid, enc, draw)
-    text = G.assemble(laid)[0]
+def texts(draw, enc, wide=False):
+    mode = draw(st.integers(0, 7))
+    if mode == 0 and wide:
+        # anything at all (soups, damaged scripts, procedural bodies, batches): the relation holds for every str
+        from gen import sources
+        text = draw(sources.any_text())
+    elif mode == 1:
+        # batches separated by GO only: no semicolon anywhere in the text
+        k = draw(st.integers(1, 3))
+        seps = [draw(st.sampled_from(GO_SEPARATORS)) for _ in range(k)]
+        parts = [G.assemble(sprinkle(draw(G.script(1, 1, comments=3, last_semi=False)), enc, draw))[0] for _ in range(k)]
+        text = ''.join(p + sp for p, sp in zip(parts, seps))
+        if draw(st.booleans()):
+            text = text.rstrip() if draw(st.booleans()) else text + 'select 1'
+    else:
+        laid = draw(G.script(1, 3, comments=10))
+        laid = sprinkle(laid, enc, draw)
+        text = G.assemble(laid)[0]
     if enc in ('utf-8', 'utf-16') and draw(st.integers(0, 5)) == 0:
         # characters that decoders like to treat specially: byte-order mark, zero-width space, NUL, line/paragraph separators
         text = draw(st.sampled_from(['\ufeff', '\ufeff\ufeff', '\u200b', '\x00', '\u2028', '\ufffe', '\x1a'])) + text
@@ -76,7 +93,7 @@ def api_cases(draw):
     func = draw(st.sampled_from(['parse', 'parsestream', 'split', 'format']))
     opts = draw(O.valid_options()) if func == 'format' else {}
     form = draw(st.sampled_from(['bytes+encoding', 'bytes+encoding', 'utf8-bytes', 'latin1-bytes', 'stream', 'bytes-stream?'][:5]))
-    text = draw(texts(enc))          # the big structure last
+    text = draw(texts(enc, wide=True))          # the big structure last
     if form == 'latin1-bytes':
         # text that Latin-1 can encode and that is NOT valid UTF-8
         text = text.encode('latin-1', 'replace').decode('latin-1') + draw(st.sampled_from([" -- \xe9", " /*\xff*/", "; select '\xe9\\n'", " '\xa0\\x'"]))
@@ -127,9 +144,10 @@ def check_api(case):
         except Exception as e:
             res.failures.append(exc_failure('raises-form', e))
     nonascii = any(ord(c) > 127 for c in text)
+    res.labels = ['no-semicolon'] * (';' not in text)
     nst = len(ref) if isinstance(ref, list) else text.count(';') + 1
     res.nontrivial = nonascii and nst >= 2
-    res.labels = ['enc:' + enc, 'form:' + form, 'func:' + func] + ['non-ascii'] * nonascii
+    res.labels += ['enc:' + enc, 'form:' + form, 'func:' + func] + ['non-ascii'] * nonascii
     res.sample = {'text': text[:160], 'encoding': enc, 'form': form, 'func': func}
     return res
 
